@@ -132,9 +132,10 @@ CHECKS["C08"] = {
     "shards": {"quick": 16, "thorough": 32},
     "budget": {"quick": 45, "thorough": 420},
     "rule": GEN_RULE + "; for every accepted (definition, configuration, input) the cut points k < extent are "
-                       "enumerated (all in thorough, <=90 per input incl. the last-data-byte boundary in quick) and "
+                       "enumerated (thorough: all, or 600 incl. both ends and the last-data-byte boundary when the extent "
+                       "is longer; quick: <=90 per input incl. that boundary) and "
                        "a fault (0 bytes / half the bytes / OSError) is injected at EVERY read call of the fault-free "
-                       "run, taken from its recorded event log; one evaluation = one cut or one injected fault; "
+                       "run, taken from its recorded event log (240 sampled calls when a run has more than 400); one evaluation = one cut or one injected fault; "
                        "after failures a fault-free parse must reproduce the baseline (residue)",
     "anchors": ["types/", "compiler.py"],
     "required_reach": ["types/packed.py:Packed._read_array", "types/int.py:Int._read", "types/char.py:Char._read_array",
